@@ -323,6 +323,8 @@ def run_sweep(ctx, stride=1, threads=6):
         if n != (one + stride - 1) // stride:
             raise RuntimeError("sweep did not cover the requested floats in [0,1)")
         sus = [float.fromhex(t) for t in c["suspects"][0]] if c["suspects"][0] else []
+        nsus = int(c["nsus"][0][0])
+        found = False
         if sus:
             # exact decision on the suspects (rational arithmetic; exact weights from the extracted exact model)
             mtext = "coeffs c %d %d %s\n" % (it, len(sus), " ".join(qtok(Fraction(f)) for f in sus))
@@ -340,13 +342,23 @@ def run_sweep(ctx, stride=1, threads=6):
                     ctx.violation("impl-oracle", "interpolation weights do not sum to one within the proved rounding envelope",
                                   case=dict(kind="coeffs", it=it, f=fhex(f)), observed=bad["unity"][0],
                                   expected="|sum - 1| <= %s (C02_cell_table_sound)" % bad["unity"][1], sig=dict(kind="coeffs", clause="unity", it=it))
+                    found = True
                     break
-                if "moment" in bad or "each" in bad:
-                    what = bad.get("moment") or bad.get("each")
+                if "moment" in bad:
                     ctx.violation("impl-oracle", "n-point weights do not reproduce a monomial of degree below n within the proved rounding envelope",
-                                  case=dict(kind="coeffs", it=it, f=fhex(f)), observed=[str(x) for x in what], expected="proved per-cell bound",
-                                  sig=dict(kind="coeffs", clause="moments", it=it))
+                                  case=dict(kind="coeffs", it=it, f=fhex(f)), observed=dict(degree=bad["moment"][0], error=bad["moment"][1]),
+                                  expected="<= %s" % bad["moment"][2], sig=dict(kind="coeffs", clause="moments", it=it))
+                    found = True
                     break
+                if "each" in bad:
+                    ctx.violation("impl-oracle", "an interpolation weight differs from the Lagrange weight of its node by more than the proved rounding envelope "
+                                  "(polynomials below the order are not reproduced to rounding)",
+                                  case=dict(kind="coeffs", it=it, f=fhex(f)), observed=dict(weight=bad["each"][0], value=bad["each"][1]),
+                                  expected="within %s of the exact weight" % bad["each"][2], sig=dict(kind="coeffs", clause="moments", it=it))
+                    found = True
+                    break
+        if nsus > len(sus) and not found:
+            raise RuntimeError("sweep: %d suspects but only %d could be re-decided exactly and none of those fails" % (nsus, len(sus)))
         if c["zero"][0][0] != "1":
             ctx.violation("impl-oracle", "weights at offset zero are not a single unit weight", case=dict(kind="coeffs", it=it, f="0x0p+0"),
                           sig=dict(kind="coeffs", clause="unit-at-zero", it=it))
